@@ -425,7 +425,13 @@ def run(ctx):
             forced += 1
     ctx.notes["runs_with_forced_order"] = forced
     ctx.traces_validated = len(scns)
-    lifecycle_traces(ctx, scns, res)
+    try:
+        lifecycle_traces(ctx, scns, res)
+    except ToolError as e:
+        if "vacuous" in str(e):
+            raise
+        # the validation of the yield sequences reports drift (a note); trouble running it must not take the verdicts above with it
+        ctx.notes["lifecycle_trace_validation"] = {"not_run": str(e)[:400]}
     ctx.sample({"scenario": scns[5]})
     ok = [r for r in res if r.get("ok") and r.get("extra")]
     if ok:
